@@ -501,7 +501,7 @@ func runSchedCase(c *kit.Ctx, id string, kind string) {
 	var err error
 	switch kind {
 	case "trie":
-		w, err = genTrieWorld(r)
+		w, err = genTrieWorld(r, false)
 	case "state", "alias":
 		w, err = genStateWorld(r, alias)
 	case "prod":
@@ -721,6 +721,12 @@ func runSchedCase(c *kit.Ctx, id string, kind string) {
 		c.Count("cases_with_shared_nodes", 1)
 	}
 	c.Count("raw_blobs", main.nRaw)
+	c.Count("embedded_nodes", main.nEmbedded)
+	if main.nEmbedded > 0 {
+		c.Count("cases_with_embedded_nodes", 1)
+	}
+	c.Count("raw_blobs_shared_by_accounts", main.nSharedRaw)
+	c.Count("storage_roots_shared_by_accounts", main.nSharedStorage)
 	c.Max("max_closure", int64(len(main.order)))
 	c.Sample(map[string]interface{}{"world": describe(w), "first_config": cfgs[0], "sessions": results})
 	if stuck && !v.bad {
